@@ -77,6 +77,10 @@ def configs(tier):
     for mode in ('static', 'dynamic'):
         add(d=2, q=2, m=2, mode=mode, imputer='joint', storage='batch', labels=2)
         add(d=2, q=1, m=2, mode=mode, imputer='joint', storage='batch', bigger=True)
+        for imp in ('joint', 'product'):
+            add(d=2, q=1, m=2, mode=mode, imputer=imp, storage='batch', context_key=True)
+            add(d=2, q=1, m=2, mode=mode, imputer=imp, storage='batch', row_only_key=True)
+            add(d=2, q=1, m=2, mode=mode, imputer=imp, storage='batch', positional=True)
         add(d=2, q=3, m=1, mode=mode, imputer='default', storage='batch')
         add(d=2, q=2, m=1, mode=mode, imputer='joint', storage='batch', memoise=True)
         add(d=2, q=3, m=2, mode=mode, imputer='joint', storage='batch', memoise=True, _cost=500)
